@@ -229,7 +229,7 @@ CliOps == {"RemoveGapSites", "RemoveCharacterSites", "RemoveMajorityCharacterSit
            "Deduplicate", "Compress", "Mask", "MaskOccurences", "MaskUnique", "SubAlign", "Replace",
            "ShuffleSequences", "Swap", "Recombine", "Mutate", "AddGaps", "Sample", "SampleSeqBag", "RandSubAlign",
            "Rename", "RenameRegexp", "CleanNames", "TrimNames", "TrimNamesAuto", "AppendSeqIdentifier", "TrimSequences",
-           "Unalign", "Transpose", "RefCoordinates", "Split", "SelectSites", "RefSites", "InversePositions", "CodonAlign"} \cup CliQueryOps
+           "Unalign", "Transpose", "RefCoordinates", "Split", "SelectSites", "RefSites", "InversePositions", "CodonAlign", "InverseCoordinates"} \cup CliQueryOps
 \* relations that need the part of the return record the command writes to a side file
 CliNeedsRet == {"Compress", "CleanNames", "TrimNames", "TrimNamesAuto"}
 
@@ -252,7 +252,7 @@ ErrRel(h, op, recv, a) ==      \* must the call fail?
     [] op = "Swap" -> a.rp < 0 \/ a.rp > a.rq
     [] op = "RandSubAlign" -> RandSubErr(o, a.len)
     [] op = "Recombine" -> RecombineErr(a.pp, a.pq, a.lp, a.lq)
-    [] op = "TranslateByReference" -> a.ref = <<>> \/ ~HasName(o, a.ref) \/ o.al # NUCLEOTIDS \/ ~ValidCode(a.code)
+    [] op = "TranslateByReference" -> a.ref = <<>> \/ ~HasName(o, a.ref) \/ o.al # NUCLEOTIDS \/ ~ValidCode(a.code) \/ a.frame < 0
     [] op = "CodonAlign" -> o.al # AMINOACIDS \/ h[a.nt].al # NUCLEOTIDS \/ ~CodonAlignFits(o, h[a.nt])
     [] OTHER -> FALSE
 Allowed(h, op, recv, a, post, new, ret) ==
